@@ -37,6 +37,9 @@ static int vh_perturb = 1; /* H2 on/off */
 static int vh_target_kind = -1;     /* search mode: delay after every event of this kind */
 static int vh_target_us = 200;
 static __thread int vh_tl_delay_pending;
+static int vh_target_pre_kind = -1; /* search mode: delay just before the NEXT hooked action of a thread whose latest
+                                     * record was of this kind (holds open the unhooked code between the two) */
+static __thread int vh_tl_pre_pending;
 static uint64_t vh_seed = 1;
 static __thread uint64_t vh_tl_rng;
 static __thread int vh_tl_rng_init;
@@ -113,6 +116,15 @@ static int vh_actor_index(uintptr_t actor)
 /* ---- hooks ---- */
 static void vh_trace_lock(void)
 {
+    if (vh_tl_pre_pending) {
+        vh_tl_pre_pending = 0;
+        if (!vh_tl_rng_init) {
+            vh_tl_rng = vh_seed * 0x9e3779b97f4a7c15ULL ^ (uint64_t)(uintptr_t)&vh_tl_rng;
+            vh_tl_rng_init = 1;
+        }
+        uint64_t r0 = vh_rand(&vh_tl_rng);
+        usleep((useconds_t)(1 + (r0 >> 8) % (unsigned)vh_target_us));
+    }
     if (vh_perturb) {
         if (!vh_tl_rng_init) {
             vh_tl_rng = vh_seed * 0x9e3779b97f4a7c15ULL ^ (uint64_t)(uintptr_t)&vh_tl_rng;
@@ -219,6 +231,7 @@ static void vh_trace_ev(int kind, uintptr_t a, uintptr_t b, uintptr_t c)
     vh_nevents = n + 1;
     if (kind == vh_target_kind)
         vh_tl_delay_pending = 1;
+    vh_tl_pre_pending = (kind == vh_target_pre_kind);
 }
 /* harness-side record (takes the trace lock itself) */
 static void vh_note(int kind, uintptr_t a, uintptr_t b, uintptr_t c)
@@ -245,6 +258,8 @@ static void vh_trace_init(uint64_t seed, int perturb, int use_vclock)
     vh_perturb = perturb;
     if (getenv("VH_TARGET_KIND"))
         vh_target_kind = atoi(getenv("VH_TARGET_KIND"));
+    if (getenv("VH_TARGET_PRE_KIND"))
+        vh_target_pre_kind = atoi(getenv("VH_TARGET_PRE_KIND"));
     if (getenv("VH_TARGET_US"))
         vh_target_us = atoi(getenv("VH_TARGET_US"));
     if (getenv("VH_NOHOOKS")) {
